@@ -405,7 +405,7 @@ def judge(ctx, case, gw, calls, inds, out, raws, escaped) -> None:
             if f["prop"][2] != want_prop[2]:
                 diffs.append("property-id")
             if diffs:
-                ctx.fail(f"C32:answer-mismatch:{'+'.join(diffs)}", inp, f"call {i} for {want_prop} (awaits {want_mc:#04x}) returned data {data.hex()} of frame mc={f['mc']:#04x} prop={f['prop']} ({f['answer_kind']})")
+                ctx.fail(f"C32:answer-mismatch:{diffs[0]}", inp, f"call {i} for {want_prop} (awaits {want_mc:#04x}) returned data {data.hex()} of frame mc={f['mc']:#04x} prop={f['prop']} ({f['answer_kind']})")
             elif f not in window:
                 ctx.fail("C32:answer-outside-call-window", inp, f"call {i} transmitted at {ft['t']} returned at {c['t1']} data of a frame delivered at {f['t']}")
         else:
